@@ -61,7 +61,7 @@ FN_DIFF0, FN_DIFF1, FN_DIFF2, FN_DIFF3, FN_QUIT, FN_BLOCKSIZE, FN_BITSHIFT, FN_Q
 FNSIZE, ULONGSIZE, ENERGYSIZE, BITSHIFTSIZE, LPCQSIZE, LPCQUANT = 2, 2, 3, 2, 2, 5
 TYPE_AU1, TYPE_S16HL, TYPE_S16LH, TYPE_ULAW, TYPE_AU2 = 0, 3, 5, 7, 8
 NWRAP = 3
-N_QUICK, N_THOROUGH = 300, 8000
+N_QUICK, N_THOROUGH = 300, 20000
 DECODE_TIMEOUT_S = 10.0
 VECTORS = ["123_1pcbe", "123_1pcle", "123_1ulaw", "123_2pcbe", "123_2pcle", "123_2ulaw"]
 
@@ -381,7 +381,7 @@ def _encode(rng, samples, s, stats, inject=None, hdr_ftype=None):
             h = hist[ch] + x  # h[nwrap + i] is sample i of the block
             # --- command
             allzero = not any(x)
-            can_lpc = maxnlpc > 0 and bs >= nwrap
+            can_lpc = maxnlpc > 0 and (bs >= nwrap or s.get("lpc_short_blocks", False))  # probe switch, off by default
             if allzero and rng.random() < 0.7:
                 cmd = FN_ZERO
             elif can_lpc and rng.random() < s["p_lpc"]:
@@ -595,6 +595,37 @@ def _spec_decode(stream, n, nchan_expected):
 # ======================================================================================
 # running the real decoder
 # ======================================================================================
+def _limit_memory():
+    """Cap the address space at (current + 3 GiB) for the duration of a run: a decoder that reads a garbage
+    header and asks NumPy for a gigantic buffer then fails fast (MemoryError -> recorded as a failure)
+    instead of filling memory inside C code where the alarm cannot interrupt it."""
+    try:
+        import resource
+
+        old = resource.getrlimit(resource.RLIMIT_AS)
+        with open("/proc/self/statm") as f:
+            cur = int(f.read().split()[0]) * resource.getpagesize()
+        new = cur + (3 << 30)
+        if old[1] != resource.RLIM_INFINITY:
+            new = min(new, old[1])
+        if old[0] != resource.RLIM_INFINITY:
+            new = min(new, old[0])
+        resource.setrlimit(resource.RLIMIT_AS, (new, old[1]))
+        return old
+    except Exception:
+        return None
+
+
+def _restore_memory(old):
+    if old is not None:
+        try:
+            import resource
+
+            resource.setrlimit(resource.RLIMIT_AS, old)
+        except Exception:
+            pass
+
+
 class _DecodeTimeout(Exception):
     pass
 
@@ -886,6 +917,7 @@ def run(tier: str, seed: int) -> dict:
     tmpdir = tempfile.mkdtemp(prefix="c13_")
     stats = _new_stats()
     _TIMEOUTS[0] = 0
+    old_limit = _limit_memory()
     n_total_samples = 0
     longest = 0
     per_clause = {}
@@ -974,6 +1006,7 @@ def run(tier: str, seed: int) -> dict:
             "streams cut inside the 4-byte magic (then not recognisable as shorten)"
         )
     finally:
+        _restore_memory(old_limit)
         shutil.rmtree(tmpdir, ignore_errors=True)
     return col.result(
         rule="one case = one stream (or one reference vector / one corrupted stream) decoded by read_signal; a round-trip "
